@@ -279,6 +279,11 @@ PB = obj("PB", F("y", STR, default=V("''")), bases="DPlain")
 INH_FIELDS_SRC = '@discriminator("type")\n@dataclass\nclass FBase:\n    n: int = 0\n'
 FA = obj("FA", F("n", INT, default=V("0")), F("x", INT, default=V("0")), bases="FBase")
 FB = obj("FB", F("n", INT, default=V("0")), F("y", STR, default=V("''")), bases="FBase")
+# three-level hierarchy under an inherited discriminator: KK is a subclass of the alternative KA
+# (alternatives in the library's order: most specific first, so KA is defined by the extra source)
+INH_DEEP_SRC = '@discriminator("type")\n@dataclass\nclass KBase:\n    n: int = 0\n@dataclass\nclass KA(KBase):\n    x: int = 0\n'
+KA = obj("KA", F("n", INT, default=V("0")), F("x", INT, default=V("0")), bases="KBase", raw_src="pass")
+KK = obj("KK", F("n", INT, default=V("0")), F("x", INT, default=V("0")), F("age", INT, default=V("0")), bases="KA")
 OBJECTS: Dict[str, Tuple[Sp, str]] = {
     "NtField": (NTF, ""),
     "ReqOpt": (REQOPT, ""),
@@ -549,6 +554,7 @@ UNION_EXTRA: Dict[str, Tuple[Sp, str]] = {
     "disc(inherited)": (disc("type", (("IA", "IA"), ("IB", "IB")), IA, IB, inherited="DBase"), INH_DISC_SRC),
     "disc(inherited,plain)": (disc("type", (("PA", "PA"), ("PB", "PB")), PA, PB, inherited="DPlain"), INH_PLAIN_SRC),
     "disc(inherited,fields)": (disc("type", (("FA", "FA"), ("FB", "FB")), FA, FB, inherited="FBase"), INH_FIELDS_SRC),
+    "disc(inherited,deep)": (disc("type", (("KK", "KK"), ("KA", "KA")), KK, KA, inherited="KBase"), INH_DEEP_SRC),
     "disc(inherited,recursive)": (
         disc("type", (("RLeaf", "RLeaf"), ("RBranch", "RBranch")),
              obj("RLeaf", F("v", INT, default=V("0")), bases="RBase"),
